@@ -156,8 +156,85 @@ def merge_blocks_rule(crate, prop, rule="C05.R7"):
                     r.inst(fn=b.path, callee=t["fn"]["path"].split("::")[-2] + "::insert", value_is_declaration_block=from_blocks, where="%s:%s" % (f, l))
                     if from_blocks:
                         r.fail(prop, "declaration-stored-in-keyed-collection export::merge", "an existing declaration block is stored as a value in a keyed collection: two blocks with the same derived key overwrite each other and a declaration is lost", f, l)
+            if fn_matches(t, r"Iterator::collect$", r"FromIterator", r"iter::Extend::extend$") and b.path.startswith("export::merge") \
+                    and re.search(r"collections::(BTreeMap|HashMap)<", t.get("dst_ty", "") + " " + " ".join((t.get("arg_tys") or [])[:1] if fn_matches(t, r"extend$") else [])):
+                src = t["args"][-1] if fn_matches(t, r"extend$") else t["args"][0]
+                it_org = origins(b, op_local(src), identity=M.IDENTITY_CALLS + [r"Iterator::(map|peekable|by_ref|chain|filter|skip|rev)$", r"IntoIterator>::into_iter$"])
+                blocks = any(x["kind"] == "call" and fn_matches(x["t"], r"str::<impl str>::split$") and len(x["t"]["args"]) > 1 and
+                             (op_const(x["t"]["args"][1]) or {}).get("str") == "\n\n" for x in it_org)
+                f, l = M.user_span(t["span"])
+                r.inst(fn=b.path, callee="collect into " + t.get("dst_ty", "")[:50], source_is_declaration_blocks=blocks, where="%s:%s" % (f, l))
+                if blocks:
+                    r.fail(prop, "declaration-stored-in-keyed-collection export::merge", "the existing declaration blocks are collected into a keyed map: two blocks with the same derived key overwrite each other and a declaration is lost", f, l)
             if fn_matches(t, r"string::String::push_str$") and b.path == "export::merge":
                 n_push += 1
     r.inst(fn="export::merge", push_str_calls=n_push)
     r.floor = 2
+    return r
+
+
+def sort_key_agreement_rule(crate, prop, rule="C05.R8"):
+    """sibling agreement: both operands of the ordering comparison in merge() are derived the same way"""
+    r = Result(rule, "in merge() the sort key of the incoming declaration and the sort key of each existing declaration are computed by the same chain of operations (sibling agreement), so that the insertion point does not depend on which side a declaration is on")
+    reach, _ = crate.reachable_bodies(["export::merge"], no_impls_of=("TS",))
+    n = 0
+    for b in crate.bodies:
+        if b.path not in reach or not b.path.startswith("export::"):
+            continue
+        for blk, t in b.calls():
+            if b.is_cleanup(blk):
+                continue
+            if not fn_matches(t, r"PartialOrd for &str>::(lt|le|gt|ge)$", r"cmp::Ord for str>::cmp$", r"PartialOrd<str>.*::partial_cmp$", r"cmp::Ord::cmp$") or len(t["args"]) != 2:
+                continue
+            if "str" not in (t.get("arg_tys") or [""])[0]:
+                continue
+            sigs = []
+            for a in t["args"]:
+                l0 = op_local(a)
+                chain = []
+                cur, steps = l0, 0
+                while cur is not None and steps < 60:
+                    steps += 1
+                    ds = M.def_sites(b, cur)
+                    ds = [d for d in ds if not b.is_cleanup(d[0])]
+                    if len(ds) != 1:
+                        chain.append("arg" if 1 <= cur <= b.raw["arg_count"] else "join(%d)" % len(ds))
+                        break
+                    db, i, d = ds[0]
+                    if i == "term":
+                        nm = (d.get("fn") or {}).get("path", "?")
+                        chain.append(nm.split("::")[-1] if "::" in nm else nm)
+                        if (d.get("fn") or {}).get("krate") == crate.name and d["fn"]["path"] in crate.by_path:
+                            chain[-1] = "local:" + d["fn"]["path"]
+                            break
+                        cur = op_local(d["args"][0]) if d["args"] else None
+                    else:
+                        rv = d["rv"]
+                        if rv["k"] in ("use", "cast"):
+                            p = op_place(rv["op"])
+                            cur = p["l"] if p else None
+                        elif rv["k"] in ("ref",):
+                            cur = rv["pl"]["l"]
+                        else:
+                            chain.append(rv["k"])
+                            break
+                sigs.append(chain)
+            n += 1
+            f, l = M.user_span(t["span"])
+            # compare up to the point where the two derivations reach their (different) source blocks
+            def norm(c):
+                return [x for x in c if x not in ("deref", "as_ref", "borrow")]
+            a, c = norm(sigs[0]), norm(sigs[1])
+            k = 0
+            while k < min(len(a), len(c)) and a[k] == c[k]:
+                k += 1
+            # the shared prefix is the key extraction; the tails are the two different sources of text
+            same = k >= 4 or (k >= 1 and a[0].startswith("local:"))
+            r.inst(fn=b.path, where="%s:%s" % (f, l), left_key=a[:8], right_key=c[:8], same_derivation=same)
+            if not same:
+                r.fail(prop, "sort-key-derivation-differs %s" % re.sub(r"::\{closure#\d+\}", "", b.path),
+                       "the two sides of the ordering comparison are derived differently (%s vs %s): e.g. a name with generic parameters is compared with one without, and the result depends on export order" % (a[:6], c[:6]), f, l)
+    if n == 0:
+        r.fail(prop, "anchor-missing ordering comparison", "merge() has no string ordering comparison (declarations must be placed in name order)")
+    r.floor = 1
     return r
